@@ -201,7 +201,8 @@ STUB_LOOP = "OrderBook::process_event -> OrderBook::verif_log_event in the *_loo
 
 def de(name, what, tiers=("quick", "thorough"), bounds="", timeout=1200, covers=None, **kw):
     # harnesses running under a #[kani::stub] cannot be rebuilt natively: the solver verdict stands, flagged in evidence
-    d = {"name": name, "pkg": DE, "what": what, "tiers": tiers, "bounds": bounds, "timeout": timeout, "extra": FAST, "replayable": "_loop_" not in name and not name.startswith("c17_")}
+    d = {"name": name, "pkg": DE, "what": what, "tiers": tiers, "bounds": bounds, "timeout": timeout, "extra": FAST,
+         "replayable": "_loop_" not in name and not name.startswith("c17_") and "_update_" not in name}
     if covers is not None:
         d["covers"] = covers
     d.update(kw)
@@ -278,16 +279,27 @@ K2 = [de("c16_cancel_kernel_p_zero", "cancel_live_orders, p_cancel = 0: nothing 
       de("c16_cancel_kernel_p_one", "cancel_live_orders, p_cancel >= 1: every live tracked order is cancelled, nothing else", covers=["cover.two_live_orders"], timeout=900),
       de("c16_cancel_kernel_p_interior", "cancel_live_orders, 0 < p_cancel < 1: cancels exactly the live tracked orders whose draw is <= p, keeps the others, one word per live order", covers=["cover.two_live_orders"], timeout=900)]
 
+AG_COMMON_STUBS = ["Env::place_order / Env::cancel_order -> same tick-grid test, submission / cancellation recorded in a fixed-size log (a Vec whose length depends on the path taken is out of CBMC's reach); Env::place_order itself is decided by C10's submission harnesses",
+                   "in the noise-agent harnesses: place_{buy,sell}_limit_order -> a limit order of the given side / volume / trader at an arbitrary on-grid price, cancel_live_orders -> keeps nothing (both decided by K1 / K2)"]
+K3 = [de("c16_random_update_always_tick3", "RandomAgents::update, one slot (empty or holding an order of any status), rate >= 1, tick 3, ranges (10,37) x (1,1000): acts exactly once - cancels its own Active order, else places one order with price = 3 x tick in range, volume in range, trader id = index", covers=["cover.cancels", "cover.places_a_bid"], timeout=900),
+      de("c16_random_update_never_tick1", "same, rate 0: does nothing, draws one word", covers=[], timeout=900),
+      de("c16_random_update_interior_tick10", "same, 0 < rate < 1, tick 10, single-value ranges", covers=["cover.cancels", "cover.places_a_bid"], timeout=900)]
+K4 = [de("c16_noise_update_n2_always", "NoiseAgent::update, 2 traders, p_limit >= 1 and p_market >= 1: exactly one limit and one market order per trader, configured volume, own trader ids, tracked list = new limit orders", covers=["cover.every_trader_placed_both"], timeout=600),
+      de("c16_noise_update_n2_never", "same, both probabilities 0: nothing", covers=["cover.nobody_acted"], timeout=600),
+      de("c16_noise_update_n2_limit_only", "same, p_limit >= 1, p_market = 0", covers=[], timeout=600),
+      de("c16_noise_update_n2_interior", "same, both probabilities strictly inside (0,1): at most one of each per trader", covers=["cover.every_trader_placed_both", "cover.nobody_acted"], timeout=600),
+      de("c17_momentum_ratio_zero_rising_n2", "MomentumAgent::update, order ratio 0 at saturated demand: never a limit order, always one market order per trader", covers=["cover.every_trader_acted"], timeout=600)]
+
 PROPS["C16"] = {
     "level": "model_checking",
     "functions": ["agents::common::{place_buy_limit_order,place_sell_limit_order,place_buy_limit_order_market,place_sell_limit_order_market,round_price_up,round_price_down,cancel_live_orders}",
                   "Env::{place_order,cancel_order,order_status}", "MarketEnv::place_order", "OrderBook::create_order", "rand::distributions::Standard for f32 (as compiled)"],
     "assumptions": DE_ASSUME + ["price distribution = AnyDist: returns any finite f64 >= 0 (the log-normal's support; +inf excluded); mid-price = bid + 0.5 (ask - bid) of an uncrossed touch incl. the empty-side sentinels"],
     "bounds": "ticks 1..10 enumerated (quick: a subset per kernel), ALL finite f64 draws and mid-prices (bit-precise), 2 tracked orders of arbitrary status for the cancel kernel, ALL generator words",
-    "outside": "whole update() of the random / noise agents (number of submitted orders is path dependent: symbolic-length vectors are out of CBMC's reach; planned with Env::place_order stubbed), runs of many steps, > 2 tracked orders, the statistical content of interior probabilities",
-    "explanation": "Kernel level: the four limit-price kernels over ALL finite draws and mid-prices at each tick 1..10 (Ok, right side, on the grid, buys <= mid <= sells, configured volume and trader, no randomness besides the distribution), and the cancel kernel over ALL generator words (cancels only tracked orders that were active, returns exactly the survivors, probability 0 never / >= 1 always, one word per live order).",
-    "stubs": ["LogNormal<f64> -> AnyDist in the generic kernels (the ziggurat sampler's loops are out of reach)"],
-    "harnesses": K1 + K2,
+    "outside": "runs of many steps (the per-update statement is the inductive step; its composition over steps with Env::step is stated), > 2 traders / > 1 random-agent slot / > 2 tracked orders, symbolic random-agent ranges, the multi-asset agents' update() (same code shape; only their kernels and the momentum variant are decided), the statistical content of interior probabilities",
+    "explanation": "Whole update() of RandomAgents (one slot) and NoiseAgent (2 traders) with the environment's submission calls logged: probability 0 never / >= 1 always, once per trader per call, configured volumes and own trader ids, random agents inside their tick and volume ranges on the grid, cancelling only their own Active order and never holding more than one. Kernel level: the four limit-price kernels over ALL finite draws and mid-prices at each tick 1..10 (Ok, right side, on the grid, buys <= mid <= sells, configured volume and trader, no randomness besides the distribution), and the cancel kernel over ALL generator words (cancels only tracked orders that were active, returns exactly the survivors, probability 0 never / >= 1 always, one word per live order).",
+    "stubs": ["LogNormal<f64> -> AnyDist in the generic kernels (the ziggurat sampler's loops are out of reach)"] + AG_COMMON_STUBS,
+    "harnesses": K1 + K2 + K3 + K4,
 }
 
 
@@ -335,6 +347,8 @@ PROPS["C17"] = {
                   de("c17_momentum_saturated_rising_n2", "saturated demand, rising market, 2 traders: exactly one market + one limit BUY each", covers=["cover.every_trader_acted"], timeout=600),
                   de("c17_momentum_saturated_falling_n2", "saturated demand, falling market, 2 traders: exactly one market + one limit SELL each", covers=["cover.every_trader_acted"], timeout=600),
                   de("c17_momentum_saturated_falling_n1", "saturated demand, falling market, 1 trader", covers=["cover.every_trader_acted"], timeout=600, tiers=("thorough",)),
+                  de("c17_momentum_ratio_zero_rising_n2", "order ratio 0 at saturated demand, rising: never a limit order, one market BUY per trader", covers=["cover.every_trader_acted"], timeout=600),
+                  de("c17_momentum_ratio_zero_falling_n1", "order ratio 0 at saturated demand, falling, 1 trader", covers=["cover.every_trader_acted"], timeout=600, tiers=("thorough",)),
                   de("c17_momentum_market_saturated_rising_n2", "multi-asset agent, saturated, rising: one market + one limit BUY per trader on its own asset", covers=["cover.every_trader_acted"], timeout=600),
                   de("c17_momentum_market_saturated_falling_n2", "multi-asset agent, saturated, falling: one market + one limit SELL per trader on its own asset", covers=["cover.every_trader_acted"], timeout=600)],
 }
